@@ -154,17 +154,24 @@ def toNormal (h : Plus) : Plus :=
   let regs := h.sparseVals.foldl (fun r k => regMax r (decodeHash h.p k)) (Array.replicate h.m 0)
   { h with dense := regs, sparse := false, tmpSet := [], sparseVals := [], sparseBytes := 0 }
 
+/-- sparse `Add`, step 1: `h.tmpSet.add(h.encodeHash(x))` -/
+def addTmp (h : Plus) (x : Nat) : Plus := { h with tmpSet := insertSorted (encodeHash h.p x) h.tmpSet }
+/-- step 2: `if uint32(len(h.tmpSet))*100 > h.m { h.mergeSparse() }` -/
+def addMerge (h : Plus) : Plus := if h.tmpSet.length * 100 > h.m then mergeSparse h else h
+/-- step 3: `if uint32(h.sparseList.Len()) > h.m { h.mergeSparse(); h.toNormal() }` -/
+def addNormal (h : Plus) : Plus := if h.sparseBytes > h.m then toNormal (mergeSparse h) else h
+
 /-- `Add` with the hash value `x` -/
 def add (h : Plus) (x : Nat) : Plus :=
-  if h.sparse then
-    let h := { h with tmpSet := insertSorted (encodeHash h.p x) h.tmpSet }
-    let h := if h.tmpSet.length * 100 > h.m then mergeSparse h else h
-    if h.sparseBytes > h.m then toNormal (mergeSparse h) else h
+  if h.sparse then addNormal (addMerge (addTmp h x))
   else
     -- (the register array is taken out of the record first so that the update is in place)
     let d := h.dense
     let h := { h with dense := #[] }
     { h with dense := regMax d (denseIdxRho h.p x) }
+
+/-- `Add` of a list of hashes, in order -/
+def addAll (h : Plus) (xs : List Nat) : Plus := xs.foldl add h
 
 inductive MErr where
   | precision      -- "precisions must be equal" (the receiver is unchanged)
